@@ -391,6 +391,15 @@ def import_dreye():
     return dreye
 
 
+def drain_hooks():
+    """records collected by the DREYE_VERIF hooks since the last call ([] if hooks absent)"""
+    try:
+        from dreye.api import _verif
+        return _verif.drain()
+    except Exception:  # noqa
+        return []
+
+
 def safe_impl(prop, case):
     try:
         return prop.run_impl(case)
